@@ -23,7 +23,8 @@ CHECKS = {
         text="Decides four structural clauses of the router: every table that can hold a receiver/sender is scrubbed by unregister with an "
              "all-keys removal; route_rtp/route_rtcp hand out only table contents; route_rtp's decision equals the specified table over an "
              "enumerated abstract domain of table states; route_rtcp consults exactly the SSRC-bearing fields of each RTCP packet type (unknown SSRCs first / in between do not hide "
-             "registered ones); a routing decision is consumed by the very next delivery. With "
+             "registered ones); a routing decision is consumed by the very next delivery; the router class evaluated on enumerated register/unregister/route "
+             "sequences agrees with a reference model (overlapping payload-type sets, latching, take-over). With "
              "these, 'nothing is routed to an unregistered object' follows for every history; behaviour not determined by the tables is not decided.",
         ref="DESIGN.md section 3 C12"),
     "C14": dict(
